@@ -83,7 +83,7 @@ def main(tier, seed, replay):
     V = core.Verdict(PID, tier, seed)
     V.coverage['rule'] = ('single-feature worlds of every feature type with a random grains model (and random composition for continental plates); per world five instances in one process: A and its twin B (same constructor '
                           'seed), C (another seed), D (seed given by the random number seed entry, any constructor seed), E (the file again with the first seed, queried after the others); the same history of 40-80 calls '
-                          '(grains with 1-200 grains, batched lists with compositions and velocity blocks, 3D and - along a cross section through the feature - 2D entry point) interleaved call by call; twins and D bit-identical, C differs in at least one drawn value; every orientation a proper rotation, '
+                          '(grains with 1-200 grains, batched lists with compositions and velocity blocks, 3D and - along a cross section through the feature - 2D entry point) interleaved call by call; twins and D bit-identical, C differs in at least one drawn value; a third of the worlds replayed alone in a fresh process (bit-identical to the busy process); every orientation a proper rotation, '
                           'normalised sizes sum to one, fixed sizes as given, random sizes in [0,1), random compositions within their bounds (bounds given per composition or as one shared value on either side); non-trivial = histories with >= 100 draws')
     nworlds = 120 if tier == 'quick' else 3600
     jobs = []
@@ -142,6 +142,26 @@ def main(tier, seed, replay):
             hist.append((props, idx))
         jobs.append((c, truth, hist, fn, doc, (s1, s2)))
     core.run_cases('asan', [j[0] for j in jobs], PID, per_case_timeout=120)
+    # a third of the worlds once more, instance A alone in a fresh process with its own sequence of calls: the draws are a function of
+    # file, seed and the calls made so far - not of the worlds (with other parameters) that lived in the process before
+    iso = []
+    for n, (c, truth, hist, fn, doc, seeds) in enumerate(jobs):
+        if n % 3 != 0 or c.crash or not c.results or not ok(c.results[0]):
+            continue
+        ic = core.Case('iso_' + c.cid, [c.cmds[0]] + [c.cmds[idx[0]] for (_p, idx) in hist])
+        iso.append((ic, c, hist, fn, seeds))
+    core.run_cases('asan', [i[0] for i in iso], PID + '_iso', per_case_timeout=120, isolate=True)
+    for (ic, c, hist, fn, seeds) in iso:
+        if ic.crash or not ic.results:
+            continue
+        for k, (props, idx) in enumerate(hist):
+            a, b = c.results[idx[0]], ic.results[1 + k]
+            if a[0] == 'missing' or b[0] == 'missing':
+                break
+            V.count()
+            if a[0] != b[0] or (ok(a) and not core.same_bits(vals(a), vals(b))):
+                V.violation('draws-depend-on-worlds-that-lived-earlier-in-the-process', {'world': fn, 'seeds': seeds, 'call': c.cmds[idx[0]], 'in_a_busy_process': a[1][:300], 'alone_in_a_fresh_process': b[1][:300]})
+                break
     for (c, truth, hist, fn, doc, seeds) in jobs:
         if c.crash:
             V.crash(c, fn)
